@@ -184,6 +184,11 @@ HR = "harness.h_resubmit"
 def c13(tier):
     q = [_ob("K-closure", HR, "k_closure", dict(N=3)),
          _ob("H-resubmit", HR, "h_resubmit", dict(shapes=["chain3", "join3"], bss=[2]), **_HO)]
+    q += [_ob("H-resubmit/fault", HR, "h_resubmit", dict(shapes=["chain3"], bss=[2], incomplete=False,
+                                                         flagsets=[[], ["--successful"]],
+                                                         fault_kinds=["edquot", "lock_timeout", "sbatch"], lock_mode="M2"), **_HO),
+          _ob("H-resubmit/twice", HR, "h_resubmit", dict(shapes=["chain3"], bss=[2], incomplete=False, second=True,
+                                                         flagsets=[[], ["--successful"]]), **_HO)]
     if tier == "quick":
         return q
     return q + [_ob("H-resubmit/wide", HR, "h_resubmit", dict(shapes=["chain3", "fork3", "join3"], bss=[1, 2]), **_HO),
@@ -253,7 +258,7 @@ def obligations(prop, tier):
                                                              squeue_fault=True), **_HO)],
         "C07": lambda t: k_batch(t, deep=True) + h_submit(t) + h_dry(t) + [_ob("K-walltime", KC, "k_walltime", {})],
         "C08": c08,
-        "C09": lambda t: k_collect(t) + h_submit(t) + [o for o in c13(t) if o["name"].startswith("H-resubmit")],
+        "C09": lambda t: k_collect(t) + h_submit(t) + [o for o in c13(t) if o["name"].startswith("H-resubmit") and "fault" not in o["name"]],
         "C10": lambda t: c10(t) + [o for o in c13(t) if o["name"].startswith("H-resubmit")][:1],
         "C11": c11,
         "C12": h_lost,
